@@ -11,7 +11,8 @@ RULE = ("cases are (tree, mode): trees rooted at a known element - generator-val
         "misplaced known elements, invalid nodes, allowed-but-unknown names and repeated max-1 children planted at arbitrary depths, "
         "also under parents that have a content or attribute error of their own and under metadata; each pruned in non-strict and in "
         "strict mode (a quarter of them at an inner node of a larger tree, half of them after the tree was validated and then edited), then pruned a second time. distinct = distinct (tree value, mode); non-trivial = trees from which at least one "
-        "subtree is removed")
+        "subtree is removed"
+        ". Also: unknown elements planted by editing the children list, tails on planted nodes, typed class tables on typed elements (as root and as child), foreign names with nested children, id strings repeated among nodes that stay, import-like decorations, trees validated before they were edited")
 ASSUMPTIONS = [
     "'a child its rule does not allow' = a child name that does not occur in the children section of the parent's rule",
     "reference model, top-down: drop children that are unknown or not allowed, skip metadata content, recurse; strict: after a child's "
